@@ -26,6 +26,9 @@ pub enum Case {
     Explore(FileSpec),
     /// one random history on one file
     History { spec: FileSpec, ops: Vec<Op> },
+    /// the same on version-1 encodings (single-level index) of the file
+    ExploreV1(FileSpec),
+    HistoryV1 { spec: FileSpec, ops: Vec<Op> },
 }
 
 pub fn deep_conf() -> BoxedStrategy<WConf> {
@@ -312,6 +315,16 @@ impl Prop for C03 {
                 tier.pick(1200, 30_000),
             )
             .shrink(600),
+            stage(
+                "v1",
+                prop_oneof![
+                    1 => explore_case(tier.pick(10, 16)).prop_map(Case::ExploreV1),
+                    6 => (gen::file_spec_light(tier), gen::history(hist_len)).prop_map(|(spec, ops)| Case::HistoryV1 { spec, ops }),
+                    3 => (explore_case(40), gen::history(hist_len)).prop_map(|(spec, ops)| Case::HistoryV1 { spec, ops }),
+                ],
+                tier.pick(400, 10_000),
+            )
+            .shrink(100),
         ]
     }
 
@@ -326,7 +339,7 @@ impl Prop for C03 {
     }
 
     fn health(&self, tier: Tier) -> Vec<(&'static str, u64)> {
-        vec![("explore:nontrivial", tier.pick(20, 600)), ("history:crossed-then-abs", tier.pick(100, 3000))]
+        vec![("explore:nontrivial", tier.pick(20, 600)), ("history:crossed-then-abs", tier.pick(100, 3000)), ("v1:multi-block", tier.pick(100, 3000))]
     }
 
     fn assumptions(&self) -> Vec<String> {
@@ -342,6 +355,36 @@ impl Prop for C03 {
 
     fn run(&self, case: &Case, obs: &mut Obs) -> Check {
         match case {
+            Case::ExploreV1(spec) | Case::HistoryV1 { spec, .. } => {
+                let mut spec = spec.clone();
+                spec.conf.levels = 0;
+                let entries = spec.src.entries();
+                let v2 = write_file(&spec.conf, &entries)?;
+                let v1 = crate::props::c10::to_v1(&v2).map_err(|e| Fail::new("c03:harness", e))?;
+                let nd = fmtdec::decode(&v2, &fmtdec::Opts::lax()).map(|d| d.n_data_blocks()).unwrap_or(0);
+                let retag = |f: Fail| Fail::new(format!("{}:v1", f.signature), format!("on the version-1 encoding: {}", f.msg));
+                match case {
+                    Case::ExploreV1(_) => {
+                        let r = explore(&v1, &entries, 60_000).map_err(retag)?;
+                        obs.add("states", r.states);
+                        obs.add("transitions", r.transitions);
+                        obs.class("v1:explore");
+                    }
+                    Case::HistoryV1 { ops, .. } => {
+                        let (_, judged) = run_history(&v1, &entries, ops, None).map_err(retag)?;
+                        obs.add("history_judged", judged);
+                        obs.add("history_ops", ops.len() as u64);
+                        obs.class("v1:history");
+                    }
+                    _ => unreachable!(),
+                }
+                obs.nontrivial = nd >= 2;
+                if nd >= 2 {
+                    obs.class("v1:multi-block");
+                }
+                obs.sample = Some(json!({"kind": "v1", "conf": spec.conf.label(), "entries": entries.len(), "data_blocks": nd}));
+                Ok(())
+            }
             Case::Explore(spec) => {
                 let entries = spec.src.entries();
                 let bytes = write_file(&spec.conf, &entries)?;
